@@ -625,7 +625,7 @@ LIG_NAMES = ["f_i", "f_f_l", "f_l", "T_h", "c_t"]
 ANCHOR_GROUPS = ["top", "bottom", "ogonek", "center", "topright"]
 
 
-def add_anchors(model, rng, n_groups=2, n_marks=3, n_ligs=1, mkmk=0.5, multi_mark=0.0, uncategorised=0.15, vary_amount=30, half=True, sparse_ok=True, propagate=0):
+def add_anchors(model, rng, n_groups=2, n_marks=3, n_ligs=1, mkmk=0.5, multi_mark=0.0, uncategorised=0.15, vary_amount=30, half=True, sparse_ok=True, propagate=0, second_only=0.0):
     """Mark attachment data: base/mark/ligature anchors on every layer of the chosen glyphs (positions vary per
     master), public.openTypeCategories for every glyph that takes part.  Roles: the glyphs named like combining marks
     are marks, those named like ligatures are ligatures, single letters are bases."""
@@ -651,6 +651,18 @@ def add_anchors(model, rng, n_groups=2, n_marks=3, n_ligs=1, mkmk=0.5, multi_mar
         if rng.random() < mkmk:
             a.append((own[0], rnum(rng, 0, 300), rnum(rng, 300, 900)))  # marks stack: mkmk
         plan[g["name"]] = a
+    if marks and rng.random() < second_only:
+        # Vietnamese-style stacking: a group that marks only ever list as their *second* underscore anchor
+        # (`_top` then `_top_viet`), with its base anchor on other marks (mkmk) and on some bases
+        extra = groups[0] + "_viet"
+        takers = [g for g in marks if rng.random() < 0.7] or [marks[0]]
+        for g in takers:
+            plan[g["name"]].insert(1, ("_" + extra, rnum(rng, 0, 300), rnum(rng, -100, 700)))
+        for g in rng.sample(marks, max(1, len(marks) // 2)):
+            plan[g["name"]].append((extra, rnum(rng, 0, 300), rnum(rng, 300, 900)))
+        for g in bases:
+            if g["name"] in plan and rng.random() < 0.4:
+                plan[g["name"]].append((extra, rnum(rng, 50, 600), rnum(rng, -200, 800)))
     for g in ligs:
         cats[g["name"]] = "ligature"
         ncomp = g["name"].count("_") + 1
